@@ -32,6 +32,8 @@ Fixpoint as_pcrit (t : tree) {struct t} : option pcrit :=
   | L [I 6; a] => option_map PNot (as_pcrit a)
   | L [I 7; s] => option_map PExists (as_sx s)
   | L [I 8; s] => option_map PIn (as_sx s)
+  | L [I 9; s] => option_map PTagAny (as_sx s)
+  | L [I 10; s] => option_map PTagNested (as_sx s)
   | _ => None
   end.
 
@@ -42,6 +44,10 @@ Fixpoint as_ccrit (t : tree) {struct t} : option ccrit :=
   | L [I 4; a; b] => match as_ccrit a, as_ccrit b with Some x, Some y => Some (CAnd x y) | _, _ => None end
   | L [I 5; a; b] => match as_ccrit a, as_ccrit b with Some x, Some y => Some (COr x y) | _, _ => None end
   | L [I 6; a] => option_map CNot (as_ccrit a)
+  (* [7, rel]: rel 0 C.parent == None, 1 the same through C.owner (primaryjoin written foreign key first) *)
+  | L [I 7; I _] => Some CNoParent
+  | L [I 8; s] => option_map CHasAny (as_sx s)
+  | L [I 9; I _] => Some (CNot CNoParent)             (* rel != None *)
   | _ => None
   end.
 
@@ -80,6 +86,11 @@ Definition as_oq (t : tree) : option oq :=
   | L [I 4; sc] => option_map QGroup (as_sx sc)
   | L [I 5; a; b] => match as_pcrit a, as_pcrit b with Some x, Some y => Some (QUnion x y) | _, _ => None end
   | L [I 6; c] => option_map QN (as_ncrit c)
+  | L [I 8; c] => option_map QC (as_ccrit c)            (* select(aliased(C)).where(c) *)
+  | L [I 9; a; b; c] =>
+    match as_sx a, as_sx b, as_ccrit c with
+    | Some a', Some b', Some c' => Some (QUnionC a' b' c') | _, _, _ => None
+    end
   (* v: 0 (Sub, aliased(Sub)), 1 two aliases, 2 the id columns of class + alias *)
   | L [I 7; I v; sc] => option_map (QSibs (Z.eqb v 2)) (as_sx sc)
   | _ => None
@@ -100,9 +111,9 @@ Definition as_crow (t : tree) : option crow :=
   end.
 Definition as_db (t : tree) : option db :=
   match t with
-  | L [tp; tc; tn] =>
-    match as_list_of as_prow tp, as_list_of as_crow tc, as_list_of as_crow tn with
-    | Some p, Some c, Some n => Some {| ps := p; cs := c; ns := n |} | _, _, _ => None
+  | L [tp; tc; tn; ta] =>
+    match as_list_of as_prow tp, as_list_of as_crow tc, as_list_of as_crow tn, as_list_of (as_pair_of as_Z as_Z) ta with
+    | Some p, Some c, Some n, Some a => Some {| ps := p; cs := c; ns := n; pn := a |} | _, _, _, _ => None
     end
   | _ => None
   end.
